@@ -884,3 +884,69 @@ def scan_tokens(arg: dict) -> dict:
     except ScannerException as e:
         out["err"] = {"is": True, "line": e.position.line, "col": e.position.column, "msg": str(e)}
     return out
+
+
+# ------------------------------------------------------------------------------------------
+# per-node pass addresses through the documented NodeProtocol (C02 observe_at)
+# ------------------------------------------------------------------------------------------
+def asm_prog_nodes(arg: dict) -> dict:
+    """Assemble an APR program while recording, for every node of the node list, the address its pc_after
+    received/returned in the label pass and the address / byte count of its emit (instance-level wrappers
+    around the NodeProtocol methods; isinstance checks in Program keep working)."""
+    from a816.cpu.cpu_65c816 import RomType
+    from a816.parse.mzparser import MZParser
+    from a816.program import Program
+    from harness import apr
+    from harness.stub import StubWriter
+    src, files = apr.render(arg["prog"])
+    write_files(files)
+    ev: dict = {}
+    order: list = []
+
+    class TracingParser(MZParser):
+        def parse(self, program, filename=""):
+            err, nodes = super().parse(program, filename)
+            for i, n in enumerate(nodes):
+                def wrap(node=n, idx=i):
+                    pa, em = node.pc_after, node.emit
+
+                    def pc_after(cur):
+                        out = pa(cur)
+                        order.append(("p", idx, cur.logical_value, out.logical_value))
+                        return out
+
+                    def emit(cur):
+                        bs = em(cur)
+                        order.append(("e", idx, cur.logical_value, len(bs) if bs else 0))
+                        return bs
+                    node.pc_after, node.emit = pc_after, emit
+                wrap()
+            return err, nodes
+
+    out = {"ok": False, "nodes": [], "err": None}
+    try:
+        p = Program()
+        if arg["prog"].get("rom") == "high":
+            p.resolver.rom_type = RomType.high_rom
+        p.parser = TracingParser(p.resolver)
+        err = p.assemble_string_with_emitter(src, "memory.s", StubWriter())
+        out["ok"] = err is None
+        out["err"] = err
+    except BaseException as e:  # noqa: BLE001
+        out["err"] = f"{type(e).__name__}: {e}"
+    # first pc_after event of a node = label pass (nodes skipped there have none before their second-pass event:
+    # a new pass starts when the index does not increase)
+    passno, last = 1, -1
+    for kind, idx, a, b in order:
+        if kind == "p":
+            if idx <= last:
+                passno += 1
+            last = idx
+            if passno == 1:
+                ev.setdefault(idx, {})["in1"] = a
+                ev[idx]["out1"] = b
+        else:
+            ev.setdefault(idx, {})["in3"] = a
+            ev[idx]["n3"] = b
+    out["nodes"] = [{"i": i, **v} for i, v in sorted(ev.items()) if "in1" in v and "in3" in v]
+    return out
